@@ -75,7 +75,7 @@ pub fn decode(bytes: &[u8]) -> Case {
                 };
                 // LSP ranges are ordered
                 let (oa, ob) = (lsp::offset_of(&text, a), lsp::offset_of(&text, b));
-                let (a, b) = if oa <= ob { (a, b) } else { (b, a) };
+                let (a, b) = if oa < ob || (oa == ob && a <= b) { (a, b) } else { (b, a) };
                 Change { range: Some((a, b)), text: ins }
             };
             lsp::apply(&mut text, &change);
@@ -356,7 +356,7 @@ pub fn enumerate(max: usize) -> Vec<Vec<u8>> {
 }
 
 pub fn checks() -> Vec<Box<dyn Check>> {
-    vec![Box::new(Sync), Box::new(RoundTrip), Box::new(Explicit)]
+    vec![Box::new(Sync), Box::new(RoundTrip), Box::new(Explicit), Box::new(super::c08b::BinarySync)]
 }
 
 pub fn run(ctx: &Ctx) -> i32 {
